@@ -63,6 +63,13 @@ run)
     if [ $rc -eq 1 ] && [ "$n" -gt 0 ]; then echo "$id vs $c: DETECTED ($n violation lines;$first)"; else echo "$id vs $c: MISSED (exit $rc) $(echo "$out" | tail -1 | cut -c1-200)"; fi
   done
   ;;
+overlayall)
+  # every stored change against its own property's check through go build -overlay (/repo untouched)
+  t=$(mktemp -d /tmp/seedov.XXXXXX)
+  for d in seeded/*/; do id=$(basename "$d"); cp "$d/patch.diff" "$t/${id%%-*}-seed${id##*-}.patch"; done
+  MUT_DIR="$t" ./mutants.sh ${2:-all}; rc=$?
+  rm -rf "$t"; exit $rc
+  ;;
 runall)
   for d in seeded/*/; do id=$(basename "$d"); "$0" run "$id"; done
   ;;
